@@ -3,6 +3,7 @@ C01 / greedy builder, part 11: `BrotliBuildMetaBlockGreedy` as a whole — no pa
 satisfies `MBOK` and the three `Covers` hypotheses of `full_metablock_roundtrip`.
 -/
 import BV.Lemmas.GreedyCmap
+import BV.Lemmas.GreedyLens
 
 namespace BV.Greedy
 open BV.Gen BV.Bits BV.Recoder BV.MetaBlock
@@ -81,6 +82,13 @@ structure HSharp (mbs : MBSplit) : Prop where
   c : ∀ i, i < mbs.cmdHistosSize → (mbs.cmdHistos.getD i []).length = 704 ∧ (mbs.cmdHistos.getD i []).sum ≤ 2 ^ 24
   d : ∀ i, i < mbs.distHistosSize → (mbs.distHistos.getD i []).length = 544 ∧ (mbs.distHistos.getD i []).sum ≤ 2 ^ 24
 
+/-- the block lengths: every block records at least `min_block_size` (512 literals / 1024 commands / 512 distances)
+symbols, and the lengths of a category sum to its symbol count plus a padding of at most `min_block_size` -/
+structure HLens (mbs : MBSplit) (nL nC nD : Nat) : Prop where
+  l : nL ≤ mbs.lit.lengths.sum ∧ mbs.lit.lengths.sum ≤ nL + 512 ∧ ∀ x ∈ mbs.lit.lengths, 512 ≤ x
+  c : nC ≤ mbs.cmd.lengths.sum ∧ mbs.cmd.lengths.sum ≤ nC + 1024 ∧ ∀ x ∈ mbs.cmd.lengths, 1024 ≤ x
+  d : nD ≤ mbs.dist.lengths.sum ∧ mbs.dist.lengths.sum ≤ nD + 512 ∧ ∀ x ∈ mbs.dist.lengths, 512 ≤ x
+
 /-- **the greedy builder is total and its result is well formed** -/
 theorem buildGreedy_ok' {F : Type} (ops : FOps F) (hirr : OracleOK ops) (ring : Bytes) (start mask prevByte prevByte2 mode nc : Nat)
     (scm : List Nat) (cmds : List Cmd) (mb hist : Bytes) (A np nd : Nat)
@@ -95,7 +103,8 @@ theorem buildGreedy_ok' {F : Type} (ops : FOps F) (hirr : OracleOK ops) (ring : 
       Covers mbs.cmdHistos (trivialMap mbs.cmd.numTypes 1) 1
         (remTypes mbs.cmd 0 (mbs.cmd.lengths.getD 0 0)) (cmds.map fun c => (0, c.cmdPrefix)) ∧
       Covers mbs.distHistos (effMap mbs.distCmap mbs.distCmapSize mbs.dist.numTypes 4) 4
-        (remTypes mbs.dist 0 (mbs.dist.lengths.getD 0 0)) (distSymsOf cmds) ∧ HSharp mbs := by
+        (remTypes mbs.dist 0 (mbs.dist.lengths.getD 0 0)) (distSymsOf cmds) ∧ HSharp mbs ∧
+      HLens mbs (litSymsOf mode hist mb 0 cmds).length cmds.length (distSymsOf cmds).length := by
   -- sizes
   have hsum := book_sum mb.length cmds 0 (Nat.zero_le _) hbook
   rw [Nat.zero_add] at hsum
@@ -139,7 +148,7 @@ theorem buildGreedy_ok' {F : Type} (ops : FOps F) (hirr : OracleOK ops) (ring : 
       by_cases hin : q.1 < scm.length
       · exact hv _ (getD_mem' scm q.1 0 hin)
       · rw [getD_of_le scm q.1 0 (by omega)]; omega
-  obtain ⟨l1, lS, lrb, lslack, lf1, lf2, lf3, lf4, lf5, lf6, lf7⟩ := splitter_result ops hirr l0 il2
+  obtain ⟨l1, lS, lrb, lslack, lf1, lf2, lf3, lf4, lf5, lf6, lf7, lf8⟩ := splitter_result ops hirr l0 il2
     (dyn_init l0 il3 (by rw [il4, il5]) (by rw [il5]; decide) il10) _ hLs
     (by rw [List.length_map]; exact litSymsOf_length mode hist mb cmds 0)
   have hCs : ∀ p ∈ cmds.map (fun c => ((0 : Nat), c.cmdPrefix)), p.1 < 1 ∧ p.2 < 704 := by
@@ -147,7 +156,7 @@ theorem buildGreedy_ok' {F : Type} (ops : FOps F) (hirr : OracleOK ops) (ring : 
     obtain ⟨c, hc, rfl⟩ := List.mem_map.mp hp
     obtain ⟨_, _, _, _, _, _, h704, _⟩ := cmd_facts A np nd c (hok c hc)
     exact ⟨Nat.zero_lt_one, h704⟩
-  obtain ⟨c1, cS, crb, cslack, cf1, cf2, cf3, cf4, cf5, cf6, cf7⟩ := splitter_result ops hirr c0 ic2
+  obtain ⟨c1, cS, crb, cslack, cf1, cf2, cf3, cf4, cf5, cf6, cf7, cf8⟩ := splitter_result ops hirr c0 ic2
     (dyn_init c0 ic3 (by rw [ic4, ic5]) (by rw [ic5]; decide) ic10) _ hCs (by rw [List.length_map]; exact Nat.le_refl _)
   have hDs : ∀ p ∈ (distSymsOf cmds).map (fun p => ((0 : Nat), p.2)), p.1 < 1 ∧ p.2 < A := by
     intro p hp
@@ -157,7 +166,7 @@ theorem buildGreedy_ok' {F : Type} (ops : FOps F) (hirr : OracleOK ops) (ring : 
     have hk := hok c (List.mem_filter.mp hc).1
     simp only [cmdOK, Bool.and_eq_true, decide_eq_true_eq] at hk
     exact ⟨Nat.zero_lt_one, hk.1.1.2⟩
-  obtain ⟨d1, dS, drb, dslack, df1, df2, df3, df4, df5, df6, df7⟩ := splitter_result ops hirr d0 id2
+  obtain ⟨d1, dS, drb, dslack, df1, df2, df3, df4, df5, df6, df7, df8⟩ := splitter_result ops hirr d0 id2
     (dyn_init d0 id3 (by rw [id4, id5]) (by rw [id5]; decide) id10) _ hDs
     (by rw [List.length_map]; unfold distSymsOf; rw [List.length_map]; exact List.length_filter_le _ _)
   -- the command loop
@@ -179,7 +188,7 @@ theorem buildGreedy_ok' {F : Type} (ops : FOps F) (hirr : OracleOK ops) (ring : 
   refine ⟨{ lit := lS.toSplit, cmd := cS.toSplit, dist := dS.toSplit, litCmap := cmap, litCmapSize := cmap.length,
             distCmap := [], distCmapSize := 0, litHistos := lS.flat, litHistosSize := lS.histosSize * nc,
             cmdHistos := cS.flat, cmdHistosSize := cS.histosSize, distHistos := dS.flat,
-            distHistosSize := dS.histosSize }, ?_, ?_, ?_, ?_, ?_, ?_⟩
+            distHistosSize := dS.histosSize }, ?_, ?_, ?_, ?_, ?_, ?_, ?_⟩
   · unfold buildGreedy
     simp only [hNL, ← hplain, ← hscm']
     rw [il1, Out.bind_ok, ic1, Out.bind_ok, id1, Out.bind_ok, g1, Out.bind_ok, g2, lf2, Out.bind_ok, g3, cf2, Out.bind_ok,
@@ -270,6 +279,19 @@ theorem buildGreedy_ok' {F : Type} (ops : FOps F) (hirr : OracleOK ops) (ring : 
       exact ⟨this.1, Nat.le_trans this.2 (by omega)⟩
     · have := histos_exact df3 i (by rw [Nat.mul_one, ← df6]; exact hi)
       exact ⟨this.1, Nat.le_trans this.2 (by omega)⟩
+  · -- block lengths
+    obtain ⟨x1, x2, x3⟩ := toSplit_lengths lf3 lf4 lf7
+    obtain ⟨y1, y2, y3⟩ := toSplit_lengths cf3 cf4 cf7
+    obtain ⟨z1, z2, z3⟩ := toSplit_lengths df3 df4 df7
+    rw [lf5, List.length_map] at x1
+    rw [lf8, il5] at x2 x3
+    rw [cf5, List.length_map] at y1
+    rw [cf8, ic5] at y2 y3
+    rw [df5, List.length_map] at z1
+    rw [df8, id5] at z2 z3
+    exact ⟨⟨by show _ ≤ lS.toSplit.lengths.sum; omega, by show lS.toSplit.lengths.sum ≤ _; omega, x3⟩,
+      ⟨by show _ ≤ cS.toSplit.lengths.sum; omega, by show cS.toSplit.lengths.sum ≤ _; omega, y3⟩,
+      ⟨by show _ ≤ dS.toSplit.lengths.sum; omega, by show dS.toSplit.lengths.sum ≤ _; omega, z3⟩⟩
 
 theorem buildGreedy_ok {F : Type} (ops : FOps F) (hirr : OracleOK ops) (ring : Bytes) (start mask prevByte prevByte2 mode nc : Nat)
     (scm : List Nat) (cmds : List Cmd) (mb hist : Bytes) (A np nd : Nat)
